@@ -202,9 +202,9 @@ theorem bitsLt_replicate_false : ∀ (k : Key) (n : Nat), n ≤ k.length → bit
 
 /-- the loop returns the leaf of the iterator's first item, or the terminator if there is none; the fuel is never
 the answer -/
-theorem rootLoop_spec (H : Hasher Node VH) (hv : B → VH) (fuel : Nat) (it : BtIt (Stored VH B)) (inv : BtInv it)
+theorem rootLoop_spec (H : Hasher Node VH) (vf : Stored VH B → VH) (fuel : Nat) (it : BtIt (Stored VH B)) (inv : BtInv it)
     (hf : it.measure < fuel) :
-    rootLoop H hv fuel it = .ok (match it.spec with | [] => H.term | e :: _ => H.leaf e.1 (vhOf hv e.2)) := by
+    rootLoop H vf fuel it = .ok (match it.spec with | [] => H.term | e :: _ => H.leaf e.1 (vf e.2)) := by
   induction fuel generalizing it with
   | zero => omega
   | succ fuel ih =>
@@ -294,11 +294,11 @@ theorem newIt_measure (leaves : List (Leaf (Stored VH B))) :
       simpa using this
 
 /-- cases 1 / 2 of `compute_root_node` -/
-theorem cases12_spec (H : Hasher Node VH) (hv : B → VH) (leaves : List (Leaf (Stored VH B))) (h : TreeOK leaves) :
-    rootLoop H hv (2 * (leaves.map (fun l => l.entries.length + 1)).sum + 2) (BtIt.new [] [] leaves zeroKey none) =
-      .ok (match flat leaves with | [] => H.term | e :: _ => H.leaf e.1 (vhOf hv e.2)) := by
+theorem cases12_spec (H : Hasher Node VH) (vf : Stored VH B → VH) (leaves : List (Leaf (Stored VH B))) (h : TreeOK leaves) :
+    rootLoop H vf (2 * (leaves.map (fun l => l.entries.length + 1)).sum + 2) (BtIt.new [] [] leaves zeroKey none) =
+      .ok (match flat leaves with | [] => H.term | e :: _ => H.leaf e.1 (vf e.2)) := by
   obtain ⟨inv, hspec⟩ := newIt_inv leaves h
-  rw [rootLoop_spec H hv _ _ inv (by have := newIt_measure leaves; omega), hspec]
+  rw [rootLoop_spec H vf _ _ inv (by have := newIt_measure leaves; omega), hspec]
 
 theorem nodeAt_ne_term (H : Hasher Node VH) (hs : H.Sound) (fuel d : Nat) (T : KVL VH) (hne : T ≠ []) :
     nodeAt H fuel d T ≠ H.term := by
@@ -352,7 +352,7 @@ theorem computeRootNode_spec (H : Hasher Node VH) (hs : H.Sound) (hv : B → VH)
       · exact .inl (nodeAt_ne_term H hs _ _ _ hl)
     rw [if_pos (hor.imp id (fun h => ⟨trivial, h.2⟩))]
   · have hle : (trieSet hv (flat leaves)).length ≤ 1 := by omega
-    have hc := cases12_spec H hv leaves ht
+    have hc := cases12_spec H (vhOf hv) leaves ht
     have hroot : (match flat leaves with | [] => H.term | e :: _ => H.leaf e.1 (vhOf hv e.2)) =
         nodeAt H 256 0 (trieSet hv (flat leaves)) := by
       cases hf : flat leaves with
